@@ -8,6 +8,8 @@ import (
 	"sync"
 	"time"
 
+	"github.com/gorilla/websocket"
+
 	"github.com/safing/portbase/api"
 	"github.com/safing/portbase/database"
 )
@@ -20,6 +22,8 @@ type apiConn struct {
 	cond *sync.Cond
 	msgs [][]byte
 	api  api.DatabaseAPI
+	ws   *websocket.Conn // set: the real websocket endpoint instead of a CreateDatabaseAPI object
+	wmu  sync.Mutex
 }
 
 const apiWatchdog = 90 * time.Second
@@ -41,6 +45,12 @@ func (a *apiConn) recv(data []byte) {
 
 func (a *apiConn) send(msg string) {
 	a.w.b.Count("api_messages_sent", 1)
+	if a.ws != nil {
+		a.wmu.Lock()
+		_ = a.ws.WriteMessage(websocket.TextMessage, []byte(msg))
+		a.wmu.Unlock()
+		return
+	}
 	a.api.Handle([]byte(msg))
 }
 
@@ -166,6 +176,14 @@ func (x *exec) runAPI() {
 	w := x.w
 	c := x.c
 	a := newAPIConn(w)
+	if c.Obs == "ws" {
+		var err error
+		if a, err = w.newWSConn(); err != nil {
+			w.b.Inconclusive("cell %s: cannot connect to the websocket endpoint: %v", c.sig(), err)
+			return
+		}
+		defer a.ws.Close()
+	}
 	qtext := "query " + w.db + ":" + x.prefix
 	switch c.Path {
 	case "api-get":
